@@ -41,6 +41,8 @@ type messageTransformSubscriberDecorator struct {
 
 	transform   func(*Message)
 	subscribeWg sync.WaitGroup
+	// subscribeWgLock keeps Add (Subscribe) from running concurrently with Wait (Close)
+	subscribeWgLock sync.Mutex
 
 	closing     chan struct{}
 	closingOnce sync.Once
@@ -53,7 +55,9 @@ func (t *messageTransformSubscriberDecorator) Subscribe(ctx context.Context, top
 	}
 
 	out := make(chan *Message)
+	t.subscribeWgLock.Lock()
 	t.subscribeWg.Add(1)
+	t.subscribeWgLock.Unlock()
 	go func() {
 		for msg := range in {
 			t.transform(msg)
@@ -78,7 +82,9 @@ func (t *messageTransformSubscriberDecorator) Close() error {
 	err := t.sub.Close()
 
 	t.closingOnce.Do(func() { close(t.closing) })
+	t.subscribeWgLock.Lock()
 	t.subscribeWg.Wait()
+	t.subscribeWgLock.Unlock()
 	return err
 }
 
